@@ -112,8 +112,11 @@ def spec_for(cs, params, k, flat_space, counter):
     return ("obj", pyref.flat_action(cs, k))
 
 
-def replay(cs, scenario, graph, rec, modes=DEFAULT_MODES, foreign=True,
-           max_states=None):
+ALL_MODES = tuple((fo, fa, f1) for fo in (False, True) for fa in (True, False) for f1 in (True, False))
+
+
+def replay(cs, scenario, graph, rec, modes=DEFAULT_MODES, foreign=True, max_states=None, extras=True,
+           decode_limit=None):
     """walk the real environments through the whole graph; returns counters"""
     init, params, edges = graph
     out, parent, order = bfs(init, edges)
@@ -123,7 +126,15 @@ def replay(cs, scenario, graph, rec, modes=DEFAULT_MODES, foreign=True,
     for i, (fo, fa, f1) in enumerate(modes):
         rec.create(i + 1, scenario, fo, fa, f1)
         eids.append(i + 1)
+    flat_envs = [e for j, e in enumerate(eids) if modes[j][1]]
+    param_envs = [e for j, e in enumerate(eids) if not modes[j][1]]
+    if extras:
+        for e in eids:
+            rec.actions(e)
+        if param_envs:
+            rec.decode_all(param_envs[0], limit=decode_limit)
     counter = 0
+    grp = 0
     kept = {}
     n_edges = 0
     tree_steps = 0
@@ -133,23 +144,35 @@ def replay(cs, scenario, graph, rec, modes=DEFAULT_MODES, foreign=True,
             rec.reset(e)
         for (pre, k, luck, post, gate) in path:
             a = pyref.flat_action(cs, k)
+            u = pyref.draw_for(a["prob"], luck, 0)
+            counter += 1
+            grp += 1
+            sps = [spec_for(cs, params, k, modes[j][1], counter + j) for j in range(len(eids))]
             for j, e in enumerate(eids):
-                u = pyref.draw_for(a["prob"], luck, 0)
-                counter += 1
-                sp = spec_for(cs, params, k, modes[j][1], counter)
-                rec.genstep(e, None, sp, u)
-                rec.step(e, sp, u)
+                rec.genstep(e, None, sps[j], u, grp=grp)
+            last = None
+            for j, e in enumerate(eids):
+                last = rec.step(e, sps[j], u, grp=grp)
                 tree_steps += 1
         kept[s] = rec.envs[eids[0]].current_state
-        for e in eids:
+        for e in eids[:2]:
             rec.goal(e, None)
+        if extras:
+            for e in flat_envs[:1]:
+                rec.mask(e)
+            rec.readable_state(eids[si % len(eids)], cs)
+            e = eids[(si + 1) % len(eids)]
+            env = rec.envs[e]
+            rec.readable_obs(e, cs, env.last_obs.numpy_flat() if env.flat_obs else env.last_obs.numpy())
         for (pre, k, luck, post, gate) in out[s]:
             a = pyref.flat_action(cs, k)
             n_edges += 1
+            grp += 1
             for j, e in enumerate(eids):
+                # both distances from the probability are used on alternating environments
                 u = pyref.draw_for(a["prob"], luck, j % 2)
                 counter += 1
-                rec.genstep(e, None, spec_for(cs, params, k, modes[j][1], counter), u)
+                rec.genstep(e, None, spec_for(cs, params, k, modes[j][1], counter), u, grp=grp * 2 + (j % 2))
         if foreign and si > 0:
             s2 = order[(si * 7 + 3) % si]
             obj = kept[s2]
